@@ -108,7 +108,7 @@ def rand_expr(rng, nets, depth, consts=0.12, xconst=0.0, allow_ternary=True, top
 
 NAME_POOLS = {
     "plain": ["a", "b", "c", "d", "y", "z", "w", "n1", "n2", "n3", "q0", "o_1", "sig"],
-    "synthetic": ["not_a", "and_a_b", "or_a_b", "xor_a_b", "xnor_a_b", "mux_o_a_b_c", "not_b", "and_b_c", "g_0", "g_1", "tie0", "tie1",
+    "synthetic": ["not_a", "and_a_b", "or_a_b", "xor_a_b", "xnor_a_b", "mux_o_a_b_c", "not_b", "and_b_c", "g_0", "g_1", "tie0", "tie1", "tie_0", "tie_1", "a_dup",
                   "a", "b", "c", "y", "z", "w"],
     "escaped": ["\\a[0]", "\\b.c", "\\n$1", "a", "b", "y", "\\y[1]", "z", "w", "c"],
 }
